@@ -906,6 +906,18 @@ def deleteSlicerCache (g : RefG) (wb ridW cachePart : Str) (lastUser : Bool) : R
 (regenerated fact `deleteSlicerOrder`) -/
 def deleteSlicerAll (g : RefG) (sheet ridS slicerPart wb ridW cachePart : Str) (emptied lastUser : Bool) : RefG :=
   (g.deleteSlicer sheet ridS slicerPart emptied).deleteSlicerCache wb ridW cachePart lastUser
+
+/-- a shape leaves a VML part: the relationship ids its markup names (`o:relid`, possibly none)
+are used once less each -/
+def dropShape (g : RefG) (vml : Str) (ids : List Str) : RefG := ids.foldl (fun g i => g.dropUse vml i) g
+
+/-- vml.go `DeleteComment` / `DeleteFormControl` → `deleteFormControl` (regenerated fact
+`deleteVmlKeepsParts`): the first shape anchored at the cell (a Note for a comment, a non-Note for
+a form control) is cut out of the VML part, if there is one; the comment entries go out of the
+comments part (no reference in them). No part, relationship or `legacyDrawing` reference is removed,
+even when the VML part is left without a shape. -/
+def deleteVmlObject (g : RefG) (vml : Str) (ids : List Str) (found : Bool) : RefG :=
+  if found then g.dropShape vml ids else g
 end RefG
 
 /-! ### shared strings (cell.go `setSharedString`, tail of `SetCellRichText`) -/
